@@ -167,12 +167,13 @@ def check_show_to(P, ctx):
             continue
         ctx.fn(f)
         bad = None
+        okf = util.format_sources(f)
         for c, ln in ir.all_calls(f['body']):
             nm = ir.callee_name(c)
             if nm in ('print_to_with', 'format_to', 'format_to_va') and len(c[2]) >= 3:
                 nsites += 1
                 fm = ir.top_nocast(c[2][2])
-                if fm[0] != 'str':
+                if not okf(fm) or fm[0] == 'param':
                     bad = bad or (ln, ir.fmt(c)[:120])
         ctx.check(bad is None, rule, '%s.Show.show' % T, site(f, bad[0] if bad else None),
                   'text is written through constant format strings; data of the shown object reaches the sink only as an argument (data used as a format would be '
